@@ -73,11 +73,14 @@ def run(common, rng, quick, sources, nesting_depth):
             except UnicodeDecodeError:
                 skipped["not UTF-8"] += 1
                 continue
+        if not s.strip() or not c18gen.escape(s).strip():
+            skipped["blank (the line protocol of the harness skips blank lines)"] += 1
+            continue
         if len(s) > MAX_BYTES:
             skipped["larger than %d bytes" % MAX_BYTES] += 1
             continue
-        if "\r" in s or "\x00" in s:
-            skipped["CR or NUL byte (line protocol)"] += 1
+        if "\x00" in s:
+            skipped["NUL byte (line protocol)"] += 1
             continue
         if nesting_depth(s.encode("utf-8")) > MAX_DEPTH:
             skipped["syntactic nesting estimate > %d" % MAX_DEPTH] += 1
